@@ -13,8 +13,14 @@ def apply(m, root):
         new = "            code_holder = {}\n            self._checksum = new_checksum\n"
         assert old in s
         s = s.replace(old, new, 1)
+    elif m.get("special") == "comment_before_string":
+        i = s.index('    @_(r"\\\".*?')
+        j = s.index("    # block comment")
+        k = s.index("    # regular comments")
+        block = s[j:k]
+        s = s[:i] + block + s[i:j] + s[k:]
     else:
-        if m["old"] not in s:
+        if m["old"] is None or m["old"] not in s:
             return False
         s = s.replace(m["old"], m["new"], 1)
     open(path, "w").write(s)
